@@ -71,8 +71,7 @@ class sx_int(metaclass=_IntMeta):
 def sx_isinstance(obj, cls):
     if isinstance(cls, tuple):
         return any(sx_isinstance(obj, c) for c in cls)
-    if cls is sx_int:
-        cls = builtins.int
+    cls = _SHADOW_TYPES.get(cls, cls)
     if isinstance(obj, (SInt,)):
         return cls in (builtins.int, object)
     if isinstance(obj, SBool):
@@ -358,6 +357,17 @@ class sx_base64(object):
     def b64decode(x, *a):
         if isinstance(x, B64):
             return x.data
+        if isinstance(x, SBytes):
+            # stub: text with symbolic characters either is rejected (binascii.Error)
+            # or decodes to arbitrary bytes of any length up to 3/4 of the text
+            from . import harness as H
+            k = ctx().nondet(2 + (3 * len(x)) // 4, "b64decode outcome")
+            if k == 0:
+                H.inp("b64_error", True)
+                raise _binascii.Error("Incorrect padding (stub)")
+            out = SBytes.sym(ctx().fresh("b64"), k - 1) if k > 1 else b""
+            H.inp("b64_decoded", out)
+            return out
         if is_symbolic(x):
             raise CannotEncode("b64decode of symbolic text")
         return _base64.b64decode(x, *a)
@@ -453,6 +463,9 @@ def inverse_stub(a, m):
     return INVERSE_HOOK(a, m)
 
 
+_SHADOW_TYPES = {}
+
+
 def install(mod_globals, names=None):
     """shadow builtins in an instrumented module's globals"""
     table = dict(int=sx_int, isinstance=sx_isinstance, len=sx_len, bool=sx_bool,
@@ -461,3 +474,8 @@ def install(mod_globals, names=None):
                  xrange=sx_range, divmod=sx_divmod, str=sx_str, abs=sx_abs)
     for k, v in table.items():
         mod_globals[k] = v
+
+
+_SHADOW_TYPES.update({sx_int: builtins.int, sx_bool: builtins.bool, sx_bytes: builtins.bytes,
+                      sx_memoryview: builtins.memoryview, sx_str: builtins.str,
+                      sx_range: builtins.range})
